@@ -47,7 +47,17 @@ type verifC03Store struct {
 	s2c      []verifC03Memo // answers given by the slot-to-cid index so far
 	g2c      []verifC03Memo // answers given by the sig-to-cid index so far
 	collided bool           // some index answer was the entry of a different key
+	// fault model (only with param "faults" = 1): what this epoch's index reads did for the request
+	preFilter int  // sig-exists pre-filter: 0 not consulted, 1 answered yes, 2 answered no, 3 read failed
+	idxFault  bool // some sig-to-cid read of this epoch failed
 }
+
+const (
+	verifC03PreNone = iota
+	verifC03PreYes
+	verifC03PreNo
+	verifC03PreFault
+)
 
 var verifC03Stores = map[*Epoch]*verifC03Store{}
 
@@ -112,14 +122,29 @@ func verifC03NewEpoch(num uint64, nBlocks, nTxs int) *Epoch {
 	return e
 }
 
-// model of the sig-exists pre-filter (bucketteer): no false negatives, false positives allowed.
+// model of the sig-exists pre-filter (bucketteer.Reader.Has: 2-byte prefix bucket + 64-bit hash).
+// Default: no false negatives, false positives arbitrary, reads never fail.
+// With param "faults" = 1: exact answers (a 64-bit hash coincidence is ignored) and every read may
+// fail (flaky remote index, file closed during a reload); the outcome is recorded per epoch.
 type verifC03SigExists struct{ st *verifC03Store }
 
+var verifC03ErrRead = errors.New("verif model: index read failed")
+
 func (b *verifC03SigExists) Has(sig [64]byte) (bool, error) {
+	faults := verifParam("faults", 0) == 1
+	if faults && verifChoice("sigExistsReadFails", 2) == 1 {
+		b.st.preFilter = verifC03PreFault
+		return false, verifC03ErrRead
+	}
 	for _, o := range b.st.objs {
 		if o.kind == verifC03KindTx && o.sig == solana.Signature(sig) {
+			b.st.preFilter = verifC03PreYes
 			return true, nil
 		}
+	}
+	if faults {
+		b.st.preFilter = verifC03PreNo
+		return false, nil
 	}
 	return verifBool("sigExistsFalsePositive"), nil
 }
